@@ -371,6 +371,15 @@ def main(argv=None) -> int:
         print(f"HARNESS-ERROR property={prop} {exc}")
         return 2
 
+    # stale replay files of this property are removed: replays/ reflects the latest run only
+    if os.path.isdir(REPLAY_DIR):
+        for fn in os.listdir(REPLAY_DIR):
+            if fn.startswith(prop + "-") and fn.endswith(".json"):
+                try:
+                    os.remove(os.path.join(REPLAY_DIR, fn))
+                except OSError:
+                    pass
+
     # 2. generated search
     try:
         specs = mod.plan(args.tier, seed)
